@@ -536,6 +536,7 @@ func cmdParseGroups(args []string) {
 	observe := fs.Bool("observe", false, "also record String/GoString/Marshal/ToPostgres/ToParameterizedPostgres")
 	withSQL := fs.Bool("sql", false, "also record both SQL renderings as PostgreSQL's parser reads them")
 	withJSON := fs.Bool("json", false, "also record the JSON round trip of every returned expression")
+	withPrint := fs.Bool("print", false, "also record the texts of String() and GoString() of every returned expression")
 	gshard := fs.String("shard", "0/1", "process group lines i mod k")
 	fs.Parse(args)
 	var gsi, gsk int
@@ -598,6 +599,14 @@ func cmdParseGroups(args []string) {
 				inl, par := renderBoth(q, "")
 				oc["sql"] = map[string]any{"inline": inl, "param": par}
 			}
+			if *withPrint {
+				if a.expr != nil {
+					oc["print"] = printed(a.expr)
+				}
+				if b.expr != nil {
+					oc["printdf"] = printed(b.expr)
+				}
+			}
 			if *withJSON {
 				if a.expr != nil {
 					oc["rt"] = roundTrip(a.expr)
@@ -611,4 +620,13 @@ func cmdParseGroups(args []string) {
 		r.write(map[string]any{"n": g.N, "cases": outCases})
 	}
 	summary(map[string]any{"groups": groups, "calls": calls, "accepted": accepted, "traced": traced})
+}
+
+// printed records what both printers return for an expression ("PANIC" when one panics).
+func printed(e *expr.Expression) (out map[string]any) {
+	out = map[string]any{"str": "PANIC", "gostr": "PANIC"}
+	defer func() { recover() }()
+	out["str"] = e.String()
+	out["gostr"] = fmt.Sprintf("%#v", e)
+	return out
 }
